@@ -1469,8 +1469,9 @@ impl PycWriter {
                 Object::Slice(v) => {
                     self.write_slice(v);
                 }
-                Object::Dict(_) => todo!(),
-                // mind null termination!
+                Object::Dict(v) => {
+                    self.write_dict(v);
+                }
 
                 Object::Long(v, _) => {
                     self.write_long(v);
@@ -1616,6 +1617,15 @@ impl PycWriter {
         for item in seq.items.iter() {
             self.write_object(item);
         }
+    }
+
+    fn write_dict(&mut self, dict: &DictObject) {
+        self.buffer.push(b'{');
+        for (key, value) in dict.items.iter() {
+            self.write_object(key);
+            self.write_object(value);
+        }
+        self.buffer.push(b'0');  // the list of items is terminated by a NULL object
     }
 
     fn write_slice(&mut self, slice: &SliceObject) {
